@@ -34,7 +34,7 @@ def main():
     ids = sorted(d for d in os.listdir(SEEDED) if os.path.isdir(os.path.join(SEEDED, d)) and (not sel or any(d.startswith(s) for s in sel)))
     scratch = f"/tmp/cij-seeded-{os.getpid()}"
     results = {}
-    out_path = os.path.join(SEEDED, "RESULTS.json")
+    out_path = os.environ.get("SEEDED_RESULTS") or os.path.join(SEEDED, "RESULTS.json")
     if os.path.exists(out_path):
         results = json.load(open(out_path))
     try:
